@@ -32,7 +32,7 @@ CHECKS = {
          "Caller-side frame registers are built, submitted (append / indexed), mutated, extended, copied and re-submitted, interleaved with in-place edits of stored frames and column adds; after every caller-side op the object must be unchanged, after every object-side op the registers and the other frames must be unchanged; the aliasing partition is part of the state key; frames are handed over as lvalues and as temporaries copied from a register.",
          "2 registers, <= 4/5 stored frames", "§3 C08", "api"),
  "C09": ("model_checking", "explicit-state BFS on the real code over parameter/group edit sequences + exhaustive shape table",
-         "Add / replace / lock / unlock over existing and new groups x names x value menu: created-iff-absent, replaced-in-place-iff-present, look-up equals the given parameter, every other group/parameter identical at the same index, frames untouched, lock toggles flip one flag; names differing by case only are distinct parameters.",
+         "Add / replace / lock / unlock over existing and new groups x names x value menu: created-iff-absent, replaced-in-place-iff-present, look-up equals the given parameter, every other group/parameter identical at the same index, frames untouched, lock toggles flip one flag; names differing by case only are distinct parameters; a well-formed parameter is never refused; Group and Parameters::group (append or merge) stand-alone against a model.",
          "value menu of 6 (quick) / 10 (thorough) shapes", "§3 C09", "api"),
  "C10": ("model_checking", "explicit-state BFS on the real code; whole-object snapshot equality on every refused transition",
          "Every throwing transition met by the mutator, precondition, parameter and loaded-object alphabets (including partly-invalid arguments, ragged frames, refused declarations at the capacity limits) must leave the full snapshot (header, parameters, frames, caller frames, aliasing) identical.",
@@ -59,7 +59,7 @@ CHECKS = {
          "Debug/RelWithDebInfo/Release x shared/static built with the project's CMakeLists; corpora: three API state spaces (every transition with outcome class + successor hash + saved-file digest per state), the file corpus through load/save generations, all integer/float pattern files, the setter shape table, and one construction history executed by a static object's constructor (before main) and by main.",
          "harness objects compiled once; x86-64 gcc only", "§3 C19", "c19"),
  "C11": ("model_checking", "explicit-state BFS on the real code + exhaustive look-up sweep in every state",
-         "In every distinct state every positional accessor is called with {0..size-1,size,size+1,2^32,2^64-1} and every by-name accessor with {present, absent, case variant, padded, empty}; typed getters on every parameter, also after refused set() calls on a copy; trailing-space naming clause on every naming call; Point::data() against the components.",
+         "In every distinct state every positional accessor is called with {0..size-1,size,size+1,2^32,2^64-1} and every by-name accessor with {present, absent, case variant, padded, empty}; typed getters on every parameter, also after refused set() calls on a copy; Points / SubFrame / Analogs / Group used stand-alone against a vector model (drv_containers); trailing-space naming clause on every naming call; Point::data() against the components.",
          "container sizes bounded by the shape guards", "§3 C11", "api"),
 }
 NOT_YET = {}
